@@ -559,8 +559,8 @@ def r06_3(ctx):
         made = []
 
         def hook(rn, ev, call, name, recv, args, kwargs):
-            if name == "cls" or (isinstance(recv, Obj) and str(recv).startswith("cls:")):
-                made.append(args[0])
+            if (name == "cls" or (isinstance(recv, Obj) and str(recv).startswith("cls:"))) and isinstance(call.func, ast.Name):
+                made.append(args[0])                 # cls(segments): the constructor (cls.helper(..) is a helper)
                 return "CURVE"
             return NotImplemented
         try:
